@@ -473,7 +473,7 @@ def check_refuted_window(P, R):
     lp = loops[0]
     mts = [n for n in g.nodes if n.kind == 'stmt' and T._inside(n.ast, lp.body) and any(isinstance(x, ast.Call) and call_attr(x) == 'match_tail' for x in walk_shallow(n.ast))]
     refs = [n for n in g.nodes if n.kind == 'stmt' and isinstance(n.ast, ast.Assign) and is_const(n.ast.value, None)
-            and {dotted(t) for t in n.ast.targets} == {er['trest_len'], er['trest']} and T._inside(n.ast, lp.body)]
+            and {dotted(t) for t in n.ast.targets} == ({er['trest_len'], er['trest']} - {None}) and T._inside(n.ast, lp.body)]
     adv = [g.node_of_stmt(x)[0] for x in walk_shallow(lp) if isinstance(x, ast.AugAssign) and dotted(x.target) == er['start']]
     if isinstance(lp, ast.For):
         adv = [T.loop_head(g, lp)]
